@@ -185,7 +185,33 @@ def generated_alias_documents(ctx):
             bad += 1
             ctx.violation({"what": "a document whose own identifiers are all distinct is reported as containing duplicates (its checkpoint alias equals one that validation generates)",
                            "base": name, "alias": a, "document": d, "implementation": r})
-    return len(docs)
+    # conformant import trees (files that import files, connections at every level generate checkpoints with ids of
+    # their own): all identifiers of all documents are distinct, so no duplicate may be reported
+    import imports_deep as D
+    rng = random.Random(ctx.seed + 31)
+    tdocs, tfiles = [], []
+    for i in range(30 if ctx.tier == "quick" else 300):
+        case = D.gen_valid_deep(rng, threads=(i % 4 == 0))
+        for f in case["files"].values():
+            f["file"] = None
+        tdocs.append(D.render_deep(case, ctx.repo_copy, random.Random(rng.randrange(1 << 30)), ["mixed", "id", "alias"][i % 3], i % 2 == 1))
+        files = {}
+        for f in case["files"].values():
+            try:
+                files[f["file"]] = json.load(open(os.path.join(ctx.repo_copy, "schemas", f["file"] + ".json")))
+            except Exception:
+                files[f["file"]] = None
+        tfiles.append(files)
+    pool = impl.Pool(ctx, 4)
+    tres = pool.validate_many(tdocs)
+    pool.close()
+    nb = 0
+    for d, fl, r in zip(tdocs, tfiles, tres):
+        if any("duplicate" in e for e in r["errors"]) and nb < 2:
+            nb += 1
+            ctx.violation({"what": "a conformant import tree (all identifiers distinct) is reported as containing duplicates", "document": d, "implementation": r,
+                           "imported_files": fl})
+    return len(docs) + len(tdocs)
 
 
 def run(ctx):
